@@ -61,6 +61,7 @@ class Run:
         self.difftests = []
         self.timeout = 30 if tier == "quick" else 120
         self.sym_paths = {}
+        self.lemmas = set()
 
     # ------------------------------------------------------------------ load
     def load(self):
@@ -75,6 +76,7 @@ class Run:
     def _collect(self, paths, kind, owner, canary=False):
         for p in paths:
             self.paths += 1
+            self.lemmas |= p.ghost.get("auto_lemmas", set())
             self.covered |= p.covered
             for ob in p.obligations:
                 extra = solve.analytic_instances(ob.assumptions + [ob.goal])
@@ -109,6 +111,7 @@ class Run:
         self.trusted |= interp.trusted_used
         self.contracts_used |= interp.contracts_used
         self.dropped += interp.dropped
+        self.lemmas |= interp.lemmas_used
 
     def _contract_program(self, ctx, interp, c, variant, cfg, tag):
         ctx.ghost["verifying"] = c
@@ -228,9 +231,18 @@ class Run:
         self.trusted |= interp.trusted_used
         self.contracts_used |= interp.contracts_used
         self.dropped += interp.dropped
+        self.lemmas |= interp.lemmas_used
+
+    def gen_lemmas(self):
+        """proof obligations (base / step) of every sum lemma used in this run"""
+        from . import sumtheory
+        for name in sorted(self.lemmas):
+            for oid, text in sumtheory.lemma_obligations(name):
+                self.vcs.append(VC(oid, text, {"clause": "induction proof of lemma %s" % name}, "lemma", "lemma:" + name))
 
     # ------------------------------------------------------------- discharge
     def discharge(self, workers=None):
+        self.gen_lemmas()
         jobs = [(i, v.smt2, self.timeout, self.seed) for i, v in enumerate(self.vcs)]
         workers = workers or min(14, max(1, len(jobs)))
         if not jobs:
